@@ -67,17 +67,17 @@ PROPS = {
     },
     "C05": {
         "standins": ["wire-emit", "interop-C05"],
-        "units": [wire_community.units_c05, wire_v3.units_emit, x690_bytes.units_for(("C05",)), tables.units_walkcall, seam.units_request_id], "level": "other", "design_ref": "7.5",
+        "units": [wire_community.units_c05, wire_v3.units_emit, x690_bytes.units_for(("C05",)), types_c17.units_codec, tables.units_walkcall, seam.units_request_id], "level": "other", "design_ref": "7.5",
         "technique": VC + "the real chain operation -> _send -> plug-in loaders -> message processing -> security model -> "
                      "PDU framing executed symbolically; the bytes handed to the sender are compared with an RFC-transcribed "
                      "term over a free BER term algebra",
         "trusted_base": ["x690 serialisation contract (bytes(obj) = TLV of the class identifier and encode_raw()): verified from the "
-                         "x690 source per class by the X690Type.__bytes__ units; the OBJECT IDENTIFIER content octets stay assumed",
+                         "x690 source per class by the X690Type.__bytes__ units; OBJECT IDENTIFIER content: the sub-identifier codec is verified from source in C17's OidSubidCodec unit (props C05/C06 named in its obligations), the packing of the first two arcs stays assumed",
                          "importlib/pkgutil: a plug-in namespace yields the modules under /repo/src/<namespace>"],
     },
     "C06": {
         "standins": ["wire-values"],
-        "units": [wire_community.units_rx, wire_v3.units_rx, wire_v3.units_reencode, types_c17.units_table_c06], "level": "other", "design_ref": "7.6",
+        "units": [wire_community.units_rx, wire_v3.units_rx, wire_v3.units_reencode, types_c17.units_table_c06, types_c17.units_codec], "level": "other", "design_ref": "7.6",
         "technique": VC + "V1MPM/V2CMPM.decode and PDU.decode_raw executed on a well-formed RFC message with symbolic leaves "
                      "and arbitrary definite length forms; registration constants as a contract on data",
         "trusted_base": ["x690 decode contract on the TLV term algebra (class registered for the identifier octet)"],
